@@ -1043,6 +1043,22 @@ fn crash_like_case(mode: &str, seed: u64, idx: u64, thorough: bool, stats: &mut 
             }
         }
         let mut unlink_floor = 0usize;
+        // real-kill cross-check (guards the image builder): for a few sampled trace indices the same program is
+        // really killed by the shim at that call and the directory it leaves must equal the replayed image
+        let mut kill_samples: BTreeMap<usize, (Option<usize>, FsImg)> = BTreeMap::new();
+        if mode == "crash" {
+            let mutating: Vec<usize> = (0..n).filter(|k| run.recs[*k].kind != K_MARK && run.recs[*k].kind != K_FAULT).collect();
+            let want = if thorough { 6 } else { 2 };
+            for _ in 0..want {
+                if mutating.is_empty() {
+                    break;
+                }
+                let k = mutating[rng.usize(mutating.len())];
+                let r = &run.recs[k];
+                let torn = if r.kind == K_WRITE && r.result > 1 && rng.chance(1, 2) { Some(1 + rng.usize(r.data.len() - 1)) } else { None };
+                kill_samples.entry(k).or_insert((torn, FsImg::default()));
+            }
+        }
         let creation_window_end = run.recs.iter().position(|r| r.kind == K_MARK && r.data.starts_with(b"O ok")).unwrap_or(0);
         let mut reported_creation_window = false;
         for k in 0..=n {
@@ -1146,6 +1162,13 @@ fn crash_like_case(mode: &str, seed: u64, idx: u64, thorough: bool, stats: &mut 
                 break;
             }
             let r = &run.recs[k];
+            if let Some((torn, img)) = kill_samples.get_mut(&k) {
+                let mut f2 = fs.clone();
+                if let Some(j) = torn {
+                    f2.apply(&run.root, r, Some(*j));
+                }
+                *img = f2;
+            }
             // torn variants of journal writes (crash inside the call)
             if mode == "crash" && r.kind == K_WRITE && r.result > 0 && is_journal(&r.p1) {
                 for j in torn_points(r, &mut rng) {
@@ -1190,6 +1213,93 @@ fn crash_like_case(mode: &str, seed: u64, idx: u64, thorough: bool, stats: &mut 
             ));
         }
         stats.inc("trace.fidelity_checked");
+        for (k, (torn, img)) in &kill_samples {
+            let m = run.recs[..*k].iter().filter(|r| r.kind != K_MARK && r.kind != K_FAULT).count() + 1;
+            let spec = match torn {
+                Some(j) => format!("{m}:{j}"),
+                None => m.to_string(),
+            };
+            let killed = run_child(&plan, &[("FJSHIM_KILL_AT".to_string(), spec.clone())], false, false);
+            let killed = match killed {
+                Ok(x) => x,
+                Err(d) => {
+                    stats.inc("trace.real_kill_skipped");
+                    let _ = d;
+                    continue;
+                }
+            };
+            let outcome = (|| -> Result<bool, String> {
+                if killed.status != Some(137) {
+                    return Err(format!("the child was not killed at mutating call {spec} (status {:?})", killed.status));
+                }
+                // the re-execution must have issued the same calls up to the kill point (else it is not comparable)
+                // tempfile names are random: .tmpXXXXXX components are normalised
+                let norm = |p: &str| -> String {
+                    p.split('/')
+                        .map(|c| if c.starts_with(".tmp") { ".tmp*" } else { c })
+                        .collect::<Vec<_>>()
+                        .join("/")
+                };
+                let rel = |root: &str, p: &str| -> String { norm(p.strip_prefix(root).unwrap_or(p)) };
+                let a: Vec<(u32, String)> = run.recs[..*k].iter().filter(|r| r.kind != K_MARK && r.kind != K_FAULT).map(|r| (r.kind, rel(&run.root, &r.p1))).collect();
+                let b: Vec<(u32, String)> = killed.recs.iter().filter(|r| r.kind != K_MARK && r.kind != K_FAULT).map(|r| (r.kind, rel(&killed.root, &r.p1))).collect();
+                if b.len() < a.len() || b[..a.len()] != a[..] {
+                    if std::env::var("FJV_DEBUG_KILL").is_ok() {
+                        let i = a.iter().zip(b.iter()).position(|(x, y)| x != y).unwrap_or(a.len().min(b.len()));
+                        eprintln!("kill rerun differs at {i} of {} / {}: {:?} vs {:?}", a.len(), b.len(), a.get(i), b.get(i));
+                    }
+                    return Ok(false);
+                }
+                let real_db = killed.real_dir.join("db");
+                let imgdir = img.materialize(false).map_err(|e| format!("{e}"))?;
+                let list = |d: &Path| -> BTreeMap<String, (u64, u64)> {
+                    crate::util::dir_listing(d)
+                        .into_iter()
+                        .filter(|(n, _)| !n.ends_with('/'))
+                        .map(|(n, l)| {
+                            let dg = crate::util::file_digest(&d.join(&n));
+                            (norm(&n), (l, dg))
+                        })
+                        .collect()
+                };
+                let real = list(&real_db);
+                let mine = list(&imgdir);
+                rm_rf(&imgdir);
+                if real.keys().collect::<Vec<_>>() != mine.keys().collect::<Vec<_>>() {
+                    return Err(format!(
+                        "file sets differ: only in the really killed directory {:?}, only in the replayed image {:?}",
+                        real.keys().filter(|k| !mine.contains_key(*k)).take(4).collect::<Vec<_>>(),
+                        mine.keys().filter(|k| !real.contains_key(*k)).take(4).collect::<Vec<_>>()
+                    ));
+                }
+                for (name, (len, dg)) in &real {
+                    let (l2, d2) = mine[name];
+                    // journals, the version marker and the lock file must be byte-identical; table / blob / manifest
+                    // files embed creation timestamps, so only their length is compared
+                    let exact = is_journal(name) || name == "version" || name == "lock";
+                    if *len != l2 || (exact && *dg != d2) {
+                        return Err(format!("file {name}: really killed directory has {len} bytes (digest {dg:x}), replayed image {l2} bytes (digest {d2:x})"));
+                    }
+                }
+                Ok(true)
+            })();
+            rm_rf(&killed.real_dir);
+            match outcome {
+                Ok(true) => {
+                    stats.inc("trace.real_kill_crosschecks");
+                    if torn.is_some() {
+                        stats.inc("trace.real_kill_crosschecks_torn");
+                    }
+                }
+                Ok(false) => stats.inc("trace.real_kill_nondeterministic_rerun"),
+                Err(e) => {
+                    return Err(Deviation::new(
+                        "inconclusive:replayer-infidelity",
+                        format!("program [{}]: real kill at trace record {k} (FJSHIM_KILL_AT={spec}) vs. replayed image: {e}", plan.desc),
+                    ));
+                }
+            }
+        }
         if mode == "unlink" {
             // end state: journal count back to one
             if let Some(j) = run.recs.iter().rev().find(|r| r.kind == K_MARK && r.data.starts_with(b"J ")) {
